@@ -62,6 +62,7 @@ where
     sync_word: u16,
     cold_start: bool,
     calibrate_image: bool,
+    reset_pending: bool,
 }
 
 /// Read-only verification hooks (`--cfg lora_rs_verif`): the driver's bookkeeping about the chip.
@@ -107,6 +108,7 @@ where
             sync_word,
             cold_start: true,
             calibrate_image: true,
+            reset_pending: false,
         };
         lora.init().await?;
 
@@ -198,7 +200,11 @@ where
         // Whatever the chip was doing is over; until it is back in standby, treat it like a
         // sleeping chip so that a failed init cannot leave a stale mode behind
         self.radio_mode = RadioMode::Sleep;
+        // If the reset sequence does not get through, the chip is in no state to be configured
+        // from: the next preparation has to repeat it
+        self.reset_pending = true;
         self.radio_kind.reset(&mut self.delay).await?;
+        self.reset_pending = false;
         self.radio_kind.ensure_ready(self.radio_mode).await?;
         self.radio_kind.set_standby().await?;
         self.radio_mode = RadioMode::Standby;
@@ -579,6 +585,13 @@ where
     }
 
     async fn prepare_modem(&mut self, frequency_in_hz: u32) -> Result<(), RadioError> {
+        if self.reset_pending {
+            // an earlier init() was cut short inside the reset sequence
+            self.cold_start = true;
+            self.radio_mode = RadioMode::Sleep;
+            self.radio_kind.reset(&mut self.delay).await?;
+            self.reset_pending = false;
+        }
         self.radio_kind.ensure_ready(self.radio_mode).await?;
         if self.radio_mode != RadioMode::Standby {
             self.radio_kind.set_standby().await?;
